@@ -219,3 +219,110 @@ func NodeHasCall(pred func(*ast.CallExpr) bool) func(ast.Node) bool {
 		return found
 	}
 }
+
+// Unbalanced is one function exit reached with a non-zero counter balance.
+type Unbalanced struct {
+	Pos token.Pos
+	Why string
+}
+
+// PathBalance checks a counter discipline over every path of the body: delta(n) gives the net
+// change a CFG node applies directly (+1/-1) and tells whether n registers the deferred release;
+// deferredDec is the number of decrements that deferred release performs when it runs (at every
+// exit reached after its registration). Every exit must be reached with direct balance -
+// (registered ? deferredDec : 0) == 0. The abstract state per block is the finite set of
+// (balance, registered) pairs, balance clipped to [-4,4]; reaching the clip (an increment that
+// can repeat in a loop) is reported as unbalanced.
+func PathBalance(fl *Flow, delta func(ast.Node) (int, bool), deferredDec int) []Unbalanced {
+	type st struct {
+		bal int
+		reg bool
+	}
+	in := make([]map[st]bool, len(fl.G.Blocks))
+	in[0] = map[st]bool{{0, false}: true}
+	work := []int{0}
+	var out []Unbalanced
+	seenOut := map[string]bool{}
+	report := func(pos token.Pos, why string) {
+		k := fl.P.Pos(pos) + why
+		if !seenOut[k] {
+			seenOut[k] = true
+			out = append(out, Unbalanced{pos, why})
+		}
+	}
+	for len(work) > 0 {
+		b := work[len(work)-1]
+		work = work[:len(work)-1]
+		blk := fl.G.Blocks[b]
+		for s0 := range in[b] {
+			s := s0
+			returned := false
+			for _, n := range blk.Nodes {
+				d, reg := delta(n)
+				s.bal += d
+				if reg {
+					s.reg = true
+				}
+				if s.bal > 4 || s.bal < -4 {
+					report(n.Pos(), "the count changes an unbounded number of times (inside a loop)")
+					returned = true
+					break
+				}
+				if _, isRet := n.(*ast.ReturnStmt); isRet {
+					final := s.bal
+					if s.reg {
+						final -= deferredDec
+					}
+					if final != 0 {
+						report(n.Pos(), "net change "+itoa(final)+" at this return")
+					}
+					returned = true
+					break
+				}
+			}
+			if returned {
+				continue
+			}
+			if len(blk.Succs) == 0 && len(blk.Nodes) > 0 {
+				// falling off the end of the body (implicit return) or a no-return call
+				last := blk.Nodes[len(blk.Nodes)-1]
+				isPanic := false
+				Calls(last, false, func(c *ast.CallExpr) {
+					if NoReturnCall(fl.Info, c) {
+						isPanic = true
+					}
+				})
+				if !isPanic {
+					final := s.bal
+					if s.reg {
+						final -= deferredDec
+					}
+					if final != 0 {
+						report(last.End(), "net change "+itoa(final)+" at the end of the function")
+					}
+				}
+			}
+			for _, sc := range blk.Succs {
+				t := int(sc.Index)
+				if in[t] == nil {
+					in[t] = map[st]bool{}
+				}
+				if !in[t][s] {
+					in[t][s] = true
+					work = append(work, t)
+				}
+			}
+		}
+	}
+	return out
+}
+
+func itoa(v int) string {
+	if v < 0 {
+		return "-" + itoa(-v)
+	}
+	if v < 10 {
+		return string(rune('0' + v))
+	}
+	return itoa(v/10) + string(rune('0'+v%10))
+}
